@@ -3,6 +3,7 @@ C14 — part planning tiles the object and respects S3 limits.
 Only property theorems live here. Quantifiers: every size, chunk size, threshold (unbounded Nat).
 -/
 import S3V.Model.Plan
+import S3V.Lemmas.Float53
 
 namespace S3V.C14
 open S3V.Plan
@@ -323,6 +324,42 @@ unknown size is planned with the 5 MiB part size and therefore 10 001 parts. -/
 theorem unknown_size_exceeds_parts :
     Gen.adjusterMaxParts < ceilDiv (10000 * (5 * 2^20) + 1) (adjust 1 none) := by
   decide +kernel
+
+/-! ### the float computation of the code: `int(math.ceil(size / float(part_size)))`
+
+`Float53.fdiv a b` is the binary64 quotient (round to nearest, ties to even) as an exact rational,
+compared bit for bit with CPython by the correspondence; `Float53.fceil` is `math.ceil` of it. -/
+
+/-- What the code computes is the exact ceiling for every size below 2^53 (S3's largest object is
+5 TiB < 2^43) and every positive part size. -/
+theorem float_ceil_exact (a b : Nat) (hb : 0 < b) (ha : a < 2 ^ 53) :
+    Float53.fceil a b = (ceilDiv a b : Int) := by
+  by_cases h0 : a = 0
+  · subst h0; rw [Float53.fceil_zero, ceilDiv_zero b hb]; rfl
+  · have hpos : 0 < ceilDiv a b := ceilDiv_pos a b hb (by omega)
+    have h1 := ceilDiv_spec a b hb
+    have h2 := le_ceilDiv_mul a b hb
+    obtain ⟨m, hm⟩ : ∃ m, ceilDiv a b = m + 1 := ⟨ceilDiv a b - 1, by omega⟩
+    rw [hm] at h1 h2 ⊢
+    have h1' : m * b < a := by
+      rcases h1 with h | h
+      · simpa using h
+      · exact absurd h h0
+    rw [Float53.fceil_eq a b m ha hb h1' h2]; push_cast; rfl
+
+/-- The quotient itself is within relative error 2^-53 of the exact one (half a unit in the last place). -/
+theorem float_quotient_error (a b : Nat) (ha : 0 < a) (hb : 0 < b) :
+    (a : ℚ) / b - (a : ℚ) / b / 2 ^ 53 ≤ Float53.fdiv a b ∧
+    Float53.fdiv a b ≤ (a : ℚ) / b + (a : ℚ) / b / 2 ^ 53 := Float53.fdiv_err a b ha hb
+
+/-- Part counts computed by the code for sizes up to 5 TiB are the model's. -/
+theorem float_ceil_exact_s3 (size c : Nat) (hc : 0 < c) (hs : size ≤ 5 * 2 ^ 40) :
+    Float53.fceil size c = (ceilDiv size c : Int) :=
+  float_ceil_exact size c hc (by omega)
+
+/-- The bound is tight: at `2^53 + 1` bytes the float ceiling is one part short. -/
+theorem float_ceil_inexact_beyond :
+    Float53.fceil (2 ^ 53 + 1) 1 ≠ (ceilDiv (2 ^ 53 + 1) 1 : Int) := by decide +kernel
 
 /-! ### non-vacuity -/
 example : 0 < (8 : Nat) ∧ (20 : Nat) ≤ 5 * 2^40 := by decide
